@@ -64,7 +64,7 @@ def release_agrees(case, dbg, rel):
 def classify(case, why):
     # D2: stack overflow abort at very deep nesting (SIGSEGV/SIGABRT -> CRASH -11 / -6)
     if 'CRASH' in why and ('CRASH -11' in why or 'CRASH -6' in why or 'CRASH 134' in why or 'CRASH 139' in why):
-        if nesting_depth(case) >= 400:
+        if nesting_depth(case) >= 1000:
             return 'D2'
     return None
 
